@@ -161,6 +161,7 @@ def run_append(prog, rep):
     res = it.enumerate(f, this='THIS', args=[(p['name'],) for p in f.params])
     probs = {'offset': [], 'extent': [], 'order': [], 'guards': []}
     nret = 0
+    nshape = [0]
     for assign, out, log, fields in res:
         if out[0] != 'ret':
             continue
@@ -190,6 +191,18 @@ def run_append(prog, rep):
             probs['guards'].append('data appended without rank(count) == rank(extent)')
         if not axis:
             probs['guards'].append('data appended without checking the axis against the rank')
+        # shape: for an arbitrary dimension i other than the axis, extent[i] == count[i] was established (component by component,
+        # or by comparing the whole shape with the axis entry patched); a comparison of element counts does not establish it
+        is_axis = [v for k, v in assign.items() if k[0] == 'cmp' and k[1] == '==' and ('axis',) in k[2:4] and any(isinstance(x, tuple) and x[:1] == ('iter',) for x in k[2:4])]
+        comp = [v for k, v in assign.items() if k[0] == 'cmp' and k[1] == '==' and 'operator[]' in repr(k[2]) and 'operator[]' in repr(k[3]) and
+                'dataExtent' in repr(k) and "('count',)" in repr(k) and "('iter'" in repr(k[2]) and "('iter'" in repr(k[3])]
+        whole = [v for k, v in assign.items() if k[0] == 'cmp' and k[1] == '==' and 'nelms' not in repr(k) and 'operator[]' not in repr(k) and 'size' not in repr(k) and
+                 "('count',)" in repr(k) and ('dataExtent' in repr(k) or 'carried' in repr(k) or "'v'" in repr(k))]
+        nshape[0] += 1 if (comp or whole) else 0
+        if is_axis and is_axis[0] is False and not (comp and comp[0] is True):
+            probs['guards'].append('a dimension other than the axis is accepted without extent[i] == count[i]')
+        elif not is_axis and not (whole and whole[0] is True):
+            probs['guards'].append('data appended without comparing the shape of the data with the shape of the array in the dimensions other than the axis (equal element counts do not imply equal shapes from rank 3 on)')
     if nret == 0:
         raise AnalysisBroken('appendData: no returning abstract path')
     for k, v in probs.items():
